@@ -25,7 +25,7 @@ func c15Norm(s string) string {
 	if i := strings.IndexByte(s, ';'); i >= 0 {
 		s = s[:i]
 	}
-	s = strings.Trim(s, " \t\r\n")
+	s = strings.TrimSpace(s) // Unicode white space, as the documented "leading and trailing whitespace"
 	return lowerASCII(s)
 }
 
@@ -54,7 +54,7 @@ func c15Param(r *rand.Rand, name string) string {
 }
 
 func c15Decorate(r *rand.Rand, a string) string {
-	ws := []string{"", "", " ", "  ", "\t", "\r\n", "\n", " \t "}
+	ws := []string{"", "", " ", "  ", "\t", "\r\n", "\n", " \t ", "\u0085", "\u00a0", "\u2003", "\u3000", "\u2028 ", "\x0c", "\x0b"}
 	var sb strings.Builder
 	sb.WriteString(ws[r.Intn(len(ws))])
 	switch r.Intn(3) {
@@ -180,7 +180,7 @@ func c15Run(c *fw.Ctx, b fw.Batch) {
 		all = append(all, n)
 	}
 	sortStrings(all)
-	unregistered := []string{"application/x-unknown", "text/plainn", "application/jso", "image", "/", "application/zip2", "text/x-plain", ""}
+	unregistered := []string{"application/x-unknown", "text/plainn", "application/jso", "image", "/", "application/zip2", "text/x-plain", "", "image/*", "*/*", "text/*", "text/*; q=0.8", "application/*", "image/", "image/pn", "mage/png", "*", "text/plain/x", "text"}
 	// distinct node "identities" by (mime, alias set): one *MIME per distinct mime via Lookup
 	type nodeInfo struct {
 		m   *mimetype.MIME
@@ -267,6 +267,9 @@ func c15Run(c *fw.Ctx, b fw.Batch) {
 		// were looked up (and not found) before the registration
 		for i := 0; i < b.N; i++ {
 			name := fmt.Sprintf("application/x-verif-c15-%d-%d", b.Idx, i)
+			if i%5 == 4 {
+				name = fmt.Sprintf("application/vnd.Verif-C15.macroEnabled.%d.%d", b.Idx, i) // legal mixed-case main type
+			}
 			var als []string
 			for k := r.Intn(4); k > 0; k-- {
 				als = append(als, fmt.Sprintf("application/x-verif-c15-alias-%d-%d-%d", b.Idx, i, k))
@@ -290,7 +293,7 @@ func c15Run(c *fw.Ctx, b fw.Batch) {
 				lk := mimetype.Lookup(nm)
 				c.Eval(1)
 				c.Count("runtime_registered_names_checked", 1)
-				if lk == nil || lk.String() != name || !lk.Is(nm) || !lk.Is(c15Decorate(r, nm)) {
+				if lk == nil || lk.String() != name || (nm == strings.ToLower(nm) && (!lk.Is(nm) || !lk.Is(c15Decorate(r, nm)))) || !lk.Is(strings.ToLower(name)) {
 					c.Violate("lookup-is", "lookup-after-extend asked-before="+fmt.Sprint(asked), fmt.Sprintf("%q was registered (name %s, aliases %v, looked up before registration: %v) but Lookup(%q) = %v does not resolve to a format that Is it", nm, name, als, asked, nm, lk), c15Payload{What: "extend", S: nm})
 				}
 				if asked {
@@ -340,7 +343,7 @@ func init() {
 	fw.Register(&fw.Prop{
 		ID:    "C15",
 		Level: "exploration",
-		Rule: "exhaustive (format x registered name/alias) matrix undecorated, plus k random decorations per pair: upper / random letter case, surrounding space / TAB / CR / LF (also between the subtype and ';'), 0-4 well-formed distinct parameters (tokens, quoted strings containing ; , = \\\" \\\\, RFC 2231 charset/language and continuation forms), a trailing ';'; unregistered look-alike names; EqualsAny over decorated pairs of registered names with decoys; every registered name and alias through Lookup(a).Is(a), including names and aliases registered at run time through Extend (half of them looked up, and not found, before their registration); detection results from seeds, hostile charset labels (incl. labels that contain '; charset=…'), generated HTML and text: d.Is(d.String()), EqualsAny(d.String(), d.String()), Lookup(bare type).Is(d.String()), and every ancestor of the result answers to all names and aliases of its format. " +
+		Rule: "exhaustive (format x registered name/alias) matrix undecorated, plus k random decorations per pair: upper / random letter case, surrounding space / TAB / CR / LF / FF / VT and Unicode white space U+0085 U+00A0 U+2003 U+3000 U+2028 (also between the subtype and ';'), 0-4 well-formed distinct parameters (tokens, quoted strings containing ; , = \\\" \\\\, RFC 2231 charset/language and continuation forms), a trailing ';'; unregistered look-alike names incl. media ranges (image/*, */*, text/*; q=0.8) and truncated names; EqualsAny over decorated pairs of registered names with decoys; every registered name and alias through Lookup(a).Is(a), including names and aliases registered at run time through Extend (half of them looked up, and not found, before their registration); detection results from seeds, hostile charset labels (incl. labels that contain '; charset=…'), generated HTML and text: d.Is(d.String()), EqualsAny(d.String(), d.String()), Lookup(bare type).Is(d.String()), and every ancestor of the result answers to all names and aliases of its format. " +
 			"non-trivial = a pair where the helper must answer true (name or alias of the format) or a result whose String() carries a quoted / RFC 2231 parameter; distinct = distinct (format, name) pairs / names / result byte-class signatures.",
 		Assumptions: []string{
 			"well-formed parameters only (no malformed or duplicate parameter lists on the argument side)",
